@@ -84,7 +84,12 @@ func c15Constructors() ([]Finding, int) {
 	var fs []Finding
 	n := 0
 	for twin := 0; twin < 3; twin++ {
-		for _, cfg := range c15Configs(twin) {
+		cfgs := c15Configs(twin)
+		// the interval option given twice: the later occurrence decides whether (and how often) a janitor runs
+		for _, pair := range [][2]time.Duration{{time.Second, 0}, {0, time.Second}, {time.Second, -1}, {-1, 1}, {time.Hour, time.Second}} {
+			cfgs = append(cfgs, CacheCfg{Twin: twin, Earlier: true, EarlierDef: 2, EarlierIvl: pair[0], HasIvl: true, Ivl: pair[1]})
+		}
+		for _, cfg := range cfgs {
 			n++
 			vtime.VEnable(epochNs)
 			vtime.VCaptureTickers(true)
